@@ -143,7 +143,16 @@ def setup():
     rec = F.Recorder()
     for k in KIND:
         DBS[k] = F.make_database(KIND[k], rec, wrap_pool=_counting)
-    for kind in DBS:
+    # a second SQLite file database and a second PostgreSQL database for the sessions that span two databases
+    DBS['file2'] = F.make_database('sqlite-file', rec, wrap_pool=_counting)
+    DBS['file2'].provider.pool.filename = '/verif-fake/db2.sqlite'
+    DBS['pg2'] = F.make_database('postgres', rec, wrap_pool=_counting)
+    for pair in TWO:
+        for mid in range(4):
+            for shape in (1, 2):
+                r = _scenario2(pair, shape, 0, 0, False, mid, 0)
+                assert r, (pair, shape, mid, LAST)
+    for kind in KIND:
         for shape in range(5):
             for mid in range(MIDS):
                 r = _scenario(kind, shape, 0, 0, 0, False, mid, 0)
@@ -341,6 +350,113 @@ def _scenario_body(kind, shape, faults, raises, mid, exc_kind):
     else:
         for con in rec.connections:
             if con is not db.provider.pool.con and con.close_calls != 1: why.append('c%d lost' % con.id)
+    return not why
+
+
+# ---------------------------------------------------------------------------------------------- sessions over two databases
+TWO = {'two_file': ('file', 'file2'), 'two_pg': ('pg', 'pg2'), 'two_mixed': ('file', 'pg')}
+
+
+def _cons_of(db):
+    """the connections the database's pool opened (SQLite: told apart by file name; PostgreSQL: by the pool's driver module)"""
+    pool = db.provider.pool
+    if hasattr(pool, 'filename'): return [c for c in rec.connections if c.connect_args[0][:1] == (pool.filename,)]
+    return [c for c in rec.connections if getattr(c, 'module', None) is pool.dbapi_module]
+
+
+def _session2(dbs, shape, raises, mid, base_id):
+    from pony.orm import db_session, select, commit, rollback, flush
+    name = SHAPES[shape]
+
+    def work(i):
+        for db in dbs:
+            select(t for t in db.T)[:]
+            db.T(id=base_id + i, a=i)
+    with db_session(**SESSION_KW.get(name, {})):
+        work(0)
+        if mid == 1: commit()
+        elif mid == 2: rollback()
+        elif mid == 3: flush()
+        if mid: work(1)
+        if raises: raise BodyError()
+
+
+def _scenario2(pair, shape, k1, k2, raises, mid, exc_kind):
+    raises = True if raises else False
+    mid = 0 if mid == 0 else 1 if mid == 1 else 2 if mid == 2 else 3
+    shape = 1 if shape == 1 else 2
+    exc_kind = 0 if exc_kind == 0 else 1 if exc_kind == 1 else 2
+    with F.untraced(rec):
+        r = _scenario2_body(pair, shape, (k1, k2, 0), raises, mid, exc_kind)
+    _say(r)
+    return r
+
+
+def _scenario2_body(pair, shape, faults, raises, mid, exc_kind):
+    COUNT[0] += 1
+    del STALE[:]
+    kinds = TWO[pair]
+    dbs = [_reset(k if k in KIND else {'file2': 'file', 'pg2': 'pg'}[k], (), 0) if False else None for k in kinds]
+    dbs = []
+    for k in kinds:
+        base = {'file2': 'file', 'pg2': 'pg'}.get(k, k)
+        db = DBS[k]
+        pool = db.provider.pool
+        pool.con = None
+        for name in ('pid', 'checkouts', 'returns', 'in_release'): pool.__dict__.pop(name, None)
+        dbs.append((k, base, db))
+    rec.reset(faults=faults, exc_factory=F.driver_exc_factory(KIND[dbs[0][1]], exc_kind))
+    for k, base, db in dbs:
+        if base == 'file':
+            F.patch_sqlite_driver(rec)
+            F.reset_sqlite_database(db)
+            db.provider.pool.pid = os.getpid()
+        else:
+            db.provider.pool.pid = None
+            F.reset_session_state(db)
+    why = []
+    LAST.clear(); LAST.update(why=why, rec=rec)
+    the_dbs = [db for _, _, db in dbs]
+    try:
+        _session2(the_dbs, shape, raises, mid, 10)
+    except Exception:
+        pass
+    for k, base, db in dbs:
+        w = []
+        _state_ok(db, w, None, _cons_of(db))
+        why.extend('%s: %s' % (k, x) for x in w)
+    if why: return False
+    if rec.n > NMAX:
+        why.append('harness bound: %d armed calls > NMAX' % rec.n)
+        return False
+    rec.armed = False
+    rec.phase = 1
+    try:
+        _session2(the_dbs, 2, False, 0, 30)          # following session over both databases, same thread
+    except Exception as e:
+        why.append('following session failed: %s: %s' % (type(e).__name__, e))
+        return False
+    for k, base, db in dbs:
+        w = []
+        _state_ok(db, w, None, _cons_of(db))
+        why.extend('%s after the following session: %s' % (k, x) for x in w)
+    if why: return False
+    if len([e for e in rec.log if e.phase == 1 and e.op == 'commit']) < 2:
+        why.append('following session did not commit both databases')
+        return False
+    for k, base, db in dbs:
+        if base == 'file':
+            rec.phase = 2
+            mine = list(rec.connections)
+            if not _other_thread_session(db, 'file', why): return False
+            if not _locks_ok(db, why): return False
+    for k, base, db in dbs:
+        try: db.disconnect()
+        except Exception as e:
+            why.append('disconnect failed: %r' % (e,)); return False
+        if db.provider.pool.con is not None: why.append('%s: pool keeps a connection after disconnect' % k)
+        for con in _cons_of(db):
+            if con.close_calls != 1: why.append('%s: c%d close_calls=%d at the end' % (k, con.id, con.close_calls))
     return not why
 
 
@@ -699,3 +815,48 @@ def reconnect_stale_my(k1: int, k2: int, shape: int, raises: bool, mid: int) -> 
     finally:
         STRICT_STALE[0] = False
 HARNESSES.append('reconnect_stale_my')
+
+
+def two_file(k1: int, k2: int, shape: int, raises: bool, mid: int, exc: int) -> bool:
+    """
+    pre: 0 <= k1 <= NMAX
+    pre: (k2 == 0) or (0 < k1 < k2 <= NMAX)
+    pre: 1 <= shape <= 2
+    pre: 0 <= mid <= 3
+    pre: 0 <= exc <= 2
+    pre: FULL or exc == 0 or k2 == 0
+    pre: FULL or k2 == 0 or (mid <= 1 and shape == 1)
+    post: _
+    """
+    return ok(_scenario2('two_file', shape, k1, k2, raises, mid, exc))
+HARNESSES.append('two_file')
+
+
+def two_pg(k1: int, k2: int, shape: int, raises: bool, mid: int, exc: int) -> bool:
+    """
+    pre: 0 <= k1 <= NMAX
+    pre: (k2 == 0) or (0 < k1 < k2 <= NMAX)
+    pre: 1 <= shape <= 2
+    pre: 0 <= mid <= 3
+    pre: 0 <= exc <= 2
+    pre: FULL or exc == 0 or k2 == 0
+    pre: FULL or k2 == 0 or (mid <= 1 and shape == 1)
+    post: _
+    """
+    return ok(_scenario2('two_pg', shape, k1, k2, raises, mid, exc))
+HARNESSES.append('two_pg')
+
+
+def two_mixed(k1: int, k2: int, shape: int, raises: bool, mid: int, exc: int) -> bool:
+    """
+    pre: 0 <= k1 <= NMAX
+    pre: (k2 == 0) or (0 < k1 < k2 <= NMAX)
+    pre: 1 <= shape <= 2
+    pre: 0 <= mid <= 3
+    pre: 0 <= exc <= 2
+    pre: FULL or exc == 0 or k2 == 0
+    pre: FULL or k2 == 0 or (mid <= 1 and shape == 1)
+    post: _
+    """
+    return ok(_scenario2('two_mixed', shape, k1, k2, raises, mid, exc))
+HARNESSES.append('two_mixed')
